@@ -1,5 +1,5 @@
 (* C05 - the accepted language is exactly the documented grammar over the reference tokenisation. *)
-From Spdx Require Import Props.Shipped Spec.Lex Spec.Grammar Spec.Reject Proofs.ScanRef Proofs.ParseGrammar Proofs.ApiFacts Proofs.RejectProof.
+From Spdx Require Import Props.Shipped Spec.Lex Spec.Grammar Spec.Reject Proofs.ScanRef Proofs.ParseGrammar Proofs.ApiFacts Proofs.RejectProof Proofs.Unknown.
 Local Open Scope list_scope.
 
 (* the scanner of scan.go, with its buffer rewriting and look-behind, is the reference tokeniser *)
@@ -75,6 +75,24 @@ Example C05_classes_nonvacuous :
   = [Some false; Some false; Some false; Some false; Some false; Some false; Some false; Some false; Some false; Some false; Some false; Some false; Some true].
 Proof. vm_compute. reflexivity. Qed.
 
+(* "unknown ids": a word that no lookup rule recognises makes the text invalid, at the start, after a space or after "(" *)
+Lemma invalid_of_ref_err s e : ref_tokens T0 s = Err e -> validb T0 s = false.
+Proof.
+  intros H. destruct (validb T0 s) eqn:V; [|reflexivity]. apply C05_accepted_iff_shape in V. destruct V as [ts [Hs _]].
+  rewrite H in Hs. discriminate.
+Qed.
+Theorem C05_unknown_ids_rejected :
+  (forall sp w b, unknown_word T0 w b -> Forall (fun c => is_space c = true) sp -> validb T0 (sp ++ w ++ b) = false) /\
+  (forall a sp w b ts, ref_tokens T0 a = Ok ts -> unknown_word T0 w b -> Forall (fun c => is_space c = true) sp ->
+     validb T0 (a ++ " "%char :: sp ++ w ++ b) = false /\ validb T0 (a ++ "("%char :: sp ++ w ++ b) = false).
+Proof.
+  split.
+  - intros sp w b U Fs. exact (invalid_of_ref_err _ _ (unknown_word_first T0 HT0 sp w b U Fs)).
+  - intros a sp w b ts Ha U Fs. split.
+    + exact (invalid_of_ref_err _ _ (unknown_word_after_space T0 HT0 a sp w b ts Ha U Fs)).
+    + exact (invalid_of_ref_err _ _ (unknown_word_after_paren T0 HT0 a sp w b ts Ha U Fs)).
+Qed.
+
 (* named rejection classes, as instances of "no derivation" *)
 Example C05_examples :
   map (validb T0) [s2l "(Apache-2.0-or-later)"; s2l "DocumentRef-a:LicenseRef-b"; s2l "GPL-2.0++"; s2l "MIT-only"; s2l "mit"] = [true; true; true; true; true]
@@ -86,5 +104,5 @@ Example C05_examples :
 Proof. vm_compute. split; reflexivity. Qed.
 
 (* axioms the property theorems of this file depend on (one traversal for all of them) *)
-Definition C05_theorems := (@C05_scanner_general, @C05, @C05_accepted_iff_shape, @C05_rejected_bad_pair, @C05_rejected_bad_first, @C05_rejected_bad_last, @C05_rejected_unbalanced, @C05_named_classes).
+Definition C05_theorems := (@C05_scanner_general, @C05, @C05_accepted_iff_shape, @C05_rejected_bad_pair, @C05_rejected_bad_first, @C05_rejected_bad_last, @C05_rejected_unbalanced, @C05_named_classes, @C05_unknown_ids_rejected).
 Redirect "assumptions/C05" Print Assumptions C05_theorems.
